@@ -7,6 +7,7 @@ import json
 import os
 import random
 import re
+import shutil
 
 from pv import core
 from pv.c22_item import Unsupported, itemise
@@ -45,10 +46,53 @@ def test_dir():
     raise core.MachineryError("LFRic test algorithm files not found")
 
 
+# Small generated algorithm files (kernels of the repository's test corpus): one
+# field read through a stencil of VARIABLE extent and, in another loop of the
+# same invoke, read plainly to a fixed level - so that one halo exchange has to
+# serve MAX(extent + k, fixed depth), also after redundant computation.
+_GEN_HEAD = '''program c22_gen
+  use constants_mod,              only: r_def, i_def
+  use field_mod,                  only: field_type
+  use testkern_stencil_depth_mod, only: testkern_stencil_depth_type
+  use testkern_stencil_mod,       only: testkern_stencil_type
+  use testkern_mod,               only: testkern_type
+  use testkern_w3_mod,            only: testkern_w3_type
+  implicit none
+  type(field_type) :: f1, f2, f3, f4, g1, g2, m1, m2, h0, h1
+  real(r_def)      :: a
+  integer(i_def)   :: e1, e2, e3
+'''
+GENERATED = {
+    # stencil reads on owned cells (extent), then plain reads in a loop that
+    # includes the level-1 halo (w2 field f3 and w3 field f4)
+    "gen_c22_stencil_then_read.f90":
+        "  call invoke( testkern_stencil_depth_type(f1, f2, e1, f3, e2, f4, e3), &\n"
+        "               testkern_type(a, g1, f3, m1, f4) )\n",
+    # the same two kernels in the other order
+    "gen_c22_read_then_stencil.f90":
+        "  call invoke( testkern_type(a, g1, f3, m1, f4), &\n"
+        "               testkern_stencil_depth_type(f1, f2, e1, f3, e2, f4, e3) )\n",
+    # stencil read in a loop including the level-1 halo (extent + 1), then a
+    # plain read on owned cells (deeper after redundant computation)
+    "gen_c22_halo_stencil_then_read.f90":
+        "  call invoke( testkern_stencil_type(g1, f3, e2, m1, m2), &\n"
+        "               testkern_w3_type(a, h0, h1, f3, f1) )\n",
+    # stencil reads and plain reads both on owned cells
+    "gen_c22_stencil_then_owned_read.f90":
+        "  call invoke( testkern_stencil_depth_type(f1, f2, e1, f3, e2, f4, e3), &\n"
+        "               testkern_w3_type(a, h0, f2, f3, g2) )\n",
+}
+
+
+def generated_text(name):
+    return _GEN_HEAD + GENERATED[name] + "end program c22_gen\n"
+
+
 def list_files():
     # algorithm files only: the kernel modules (*_mod.f90) live alongside
     return sorted(f for f in os.listdir(test_dir())
-                  if f.endswith(".f90") and not f.endswith("_mod.f90"))
+                  if f.endswith(".f90") and not f.endswith("_mod.f90")) \
+        + sorted(GENERATED)
 
 
 # ------------------------------------------------------------ schedule metadata
@@ -137,22 +181,30 @@ def apply_op(schedule, op):
         raise ValueError(op)
 
 
-def alphabet(nloops, nhex):
+def alphabet(nloops, nhex, lean=False):
+    '''lean (quick tier): colouring only together with OpenMP (the halo calls
+    of "col" and "colomp" are the same) and at most three asynchronous
+    exchanges per invoke (first, middle, last).'''
     ops = []
     for i in range(nloops):
-        ops += [("rc", i, 1), ("rc", i, 2), ("rc", i, 0),
-                ("col", i), ("colomp", i), ("omp", i)]
-    for j in range(nhex):
+        ops += [("rc", i, 1), ("rc", i, 2), ("rc", i, 0)]
+        if not lean:
+            ops.append(("col", i))
+        ops += [("colomp", i), ("omp", i)]
+    hexes = list(range(nhex))
+    if lean and nhex > 3:
+        hexes = sorted({0, nhex // 2, nhex - 1})
+    for j in hexes:
         ops.append(("async", j))
     return ops
 
 
-def histories(nloops, nhex, maxlen, nsample, rnd):
+def histories(nloops, nhex, maxlen, nsample, rnd, lean=False):
     '''All histories of length <= 1; of the longer ones (up to maxlen) a
     deterministic sample: up to 4*nsample pairs of redundant-computation steps
     on two different loops (they decide which exchanges exist and how deep)
     plus nsample of the others, per length.  nsample None = all.'''
-    ops = alphabet(nloops, nhex)
+    ops = alphabet(nloops, nhex, lean)
     # one more halo-exchange index: redundant computation can add exchanges
     ops2 = ops + [("async", nhex)]
     res = [()] + [(o,) for o in ops]
@@ -167,8 +219,9 @@ def histories(nloops, nhex, maxlen, nsample, rnd):
                         and h[-1][1] != h[-2][1])
             first = [h for h in cur if rcrc(h)]
             rest = [h for h in cur if not rcrc(h)]
-            if len(first) > 4 * nsample:
-                first = rnd.sample(first, 4 * nsample)
+            # (18: every such pair of an invoke with two loops)
+            if len(first) > max(4 * nsample, 18):
+                first = rnd.sample(first, max(4 * nsample, 18))
             if len(rest) > nsample:
                 rest = rnd.sample(rest, nsample)
             cur = first + rest
@@ -276,10 +329,10 @@ def split_subroutines(text):
 
 
 def work(job):
-    '''job = (file, maxlen, nsample, seed, annexed settings).  Returns a dict
+    '''job = (file, maxlen, nsample, seed, annexed settings, lean).  Returns a dict
     with the projected cases of every (annexed setting, invoke, history,
     component).'''
-    fname, maxlen, nsample, seed, settings = job
+    fname, maxlen, nsample, seed, settings, lean = job
     core.setup_psyclone_env()
     from psyclone.parse.algorithm import parse
     from psyclone.psyGen import PSyFactory
@@ -292,7 +345,17 @@ def work(job):
            "generr": 0, "unsupported": [], "parse_error": None, "invokes": 0}
     Config.get().api_conf("lfric")._compute_annexed_dofs = False
     try:
-        _, info = parse(os.path.join(test_dir(), fname), api="dynamo0.3")
+        if fname in GENERATED:
+            gdir = core.mktemp("pv-c22-alg-")
+            try:
+                with open(os.path.join(gdir, fname), "w") as fobj:
+                    fobj.write(generated_text(fname))
+                _, info = parse(os.path.join(gdir, fname), api="dynamo0.3",
+                                kernel_paths=[test_dir()])
+            finally:
+                shutil.rmtree(gdir, ignore_errors=True)
+        else:
+            _, info = parse(os.path.join(test_dir(), fname), api="dynamo0.3")
         psy0 = PSyFactory("dynamo0.3", distributed_memory=True).create(info)
         ninv = len(psy0.invokes.invoke_list)
     except Exception as err:   # noqa  (negative test inputs of the repository)
@@ -312,7 +375,7 @@ def work(job):
             nhex = len(sched0.walk(LFRicHaloExchange))
             rnd = random.Random(int(hashlib.sha1(
                 f"{fname}|{iidx}|{annexed}|{seed}".encode()).hexdigest()[:8], 16))
-            for hist in histories(nloops, nhex, maxlen, nsample, rnd):
+            for hist in histories(nloops, nhex, maxlen, nsample, rnd, lean):
                 origin = {"file": fname, "invoke": iidx, "annexed": annexed,
                           "history": [list(o) for o in hist]}
                 try:
